@@ -5,6 +5,7 @@ package main
 import (
 	"context"
 	"fmt"
+	"strconv"
 	"strings"
 	"time"
 
@@ -281,6 +282,20 @@ func c17Run(r *vkit.Run) {
 	} {
 		visit(q)
 	}
+	// every construct that takes a string parameter x a small alphabet of degenerate strings (empty, blank, a lone
+	// quote / backquote / backslash / NUL, unbalanced brackets, template and pattern openers, a group reference)
+	strParams := []string{"", " ", "\"", "`", "\\", "\x00", "[", "(", ")", "{{", "}}", "<", "<_>", "<a><b>", "$1", "${", "a b", "%", "%!s", "é", "\xff", ".", "..", "a.", "[0", "0]"}
+	strForms := []string{
+		`{} | logfmt a=%s`, `{} | logfmt a, b=%s`, `{} | json a=%s`, `{} | json a, b=%s`, `{} | pattern %s`, `{} | regexp %s`, `{} | line_format %s`, `{} | label_format a=%s`,
+		`{} |= %s`, `{} != %s`, `{} |~ %s`, `{} !~ %s`, `{} | a=%s`, `{} | a=~%s`, `{} | drop a=%s`, `{} | keep a=~%s`, `{} |= ip(%s)`, `{} | a = ip(%s)`, `{a=%s}`, `{a=~%s}`,
+		`label_replace(count_over_time({}[10s]), %s, "x", "a", "(.*)")`, `label_replace(count_over_time({}[10s]), "d", %s, "a", "(.*)")`, `label_replace(count_over_time({}[10s]), "d", "x", %s, "(.*)")`, `label_replace(count_over_time({}[10s]), "d", "$1", "a", %s)`,
+		`count_over_time({} | logfmt a=%s [10s])`, `sum_over_time({} | json v=%s | unwrap v [10s])`,
+	}
+	for _, f := range strForms {
+		for _, p := range strParams {
+			visit(fmt.Sprintf(f, strconv.Quote(p)))
+		}
+	}
 	// the 3000-deep documents: every JSON-reading stage, under the watchdog
 	for i, q := range []string{`{} | json`, `{} | json a`, `{} | json x="a.a.a"`, `{} | unpack`, `{} | logfmt`, `{} | line_format "{{ fromJson __line__ }}"`, `count_over_time({} | json [10s])`, `{} | decolorize | regexp "(?P<x>\\[+)"`} {
 		if r.Mine(i) && !stop {
@@ -294,7 +309,7 @@ func c17Run(r *vkit.Run) {
 	if r.WantSample() {
 		r.Sample(map[string]any{"token_sequence": "sum ( rate ( {a=\"b\"} [1s] ) )", "byte_string": "{\xff\"", "contents": len(c17Data)})
 	}
-	r.Note("bounds", fmt.Sprintf("queries: the %d-query positive corpus; delete/replace/insert of every one of %d vocabulary tokens at every position of every %dth corpus query; all token sequences of length <=%d over the vocabulary; all byte strings of length <=3 over 24 bytes; 50 hostile template/regex/pattern/path queries. Every query that parses is evaluated instant and as a 5-step range query against %d log contents (arbitrary bytes, truncated and deeply nested JSON (3000-deep for the JSON-reading stages), malformed logfmt, extreme numbers/durations/sizes, odd IPs). Watchdog 20 s, a hang is believed only after a second 120 s run", len(cp), len(c17Vocab), step, L, len(c17Data)))
+	r.Note("bounds", fmt.Sprintf("queries: the %d-query positive corpus; delete/replace/insert of every one of %d vocabulary tokens at every position of every %dth corpus query; all token sequences of length <=%d over the vocabulary; all byte strings of length <=3 over 24 bytes; 90 hostile template/regex/pattern/path/parameter queries; 26 constructs with a string parameter x 26 degenerate strings. Every query that parses is evaluated instant and as a 5-step range query against %d log contents (arbitrary bytes, truncated and deeply nested JSON (3000-deep for the JSON-reading stages), malformed logfmt, extreme numbers/durations/sizes, odd IPs). Watchdog 20 s, a hang is believed only after a second 120 s run", len(cp), len(c17Vocab), step, L, len(c17Data)))
 }
 
 func c17Replay(r *vkit.Run, v vkit.Violation) *vkit.Violation {
